@@ -135,7 +135,9 @@ def v2(ctx):
 def v3(ctx):
     crate = ctx.lib()
     from .c04 import MATCHER_ANCHORS
-    b = mir.inline_view(crate, fn(crate, "ematch_node", "rewrite/ematch.rs"), keep=MATCHER_ANCHORS)
+    from .c04 import node_matcher
+    b0, hosted = node_matcher(crate)
+    b = mir.inline_view(crate, b0, keep=MATCHER_ANCHORS)
     ext = C.result_sinks(b, "out")
     ctx.floor("result extension sites", len(ext), 1)
     for c in ext:
@@ -144,9 +146,9 @@ def v3(ctx):
             if cond[0] == "eq":
                 x, y = cond[1], cond[2]
                 if role_mentions_call(x, "weak_shape") and role_mentions_call(y, "weak_shape"):
-                    px = role_mentions_param(x, "n") and not role_mentions_call(x, "next")
+                    px = (role_mentions_param(x, "n") or (hosted and role_mentions_param(x, "pattern"))) and not role_mentions_call(x, "next")
                     py = role_mentions_call(y, "nullify_app_ids")
-                    ok = ok or (px and py) or (role_mentions_param(y, "n") and role_mentions_call(x, "nullify_app_ids"))
+                    ok = ok or (px and py) or ((role_mentions_param(y, "n") or (hosted and role_mentions_param(y, "pattern"))) and not role_mentions_call(y, "next") and role_mentions_call(x, "nullify_app_ids"))
         ctx.check(ok, "shape-equality-gate", "accepting a variant is dominated by weak_shape(pattern node) == weak_shape(nullified variant)",
                   "ematch_node accepts a variant without its name-free shape being equal to the pattern node's", where_of(b, c.bb))
     # slot pairs are fed to the bijection builder in (e-graph slot, pattern slot) order and zipped over all occurrences
@@ -204,9 +206,10 @@ def multipat_roles(crate):
             appid_find.add(b.id)
     ps_readers = set(crate.field_readers(MS, "pattern_slots"))
     allows = {bid for bid in ps_readers if bid in crate.bodies and crate.bodies[bid].kind != "Closure" and bid not in writers and ret_ty(crate.bodies[bid]) == "bool"}
+    def nm(ids):        # call sites of a renamed function carry the name of the reviewed tree (aliases)
+        return {crate.bodies[x].name for x in ids} | {crate.aliases[x] for x in ids if x in crate.aliases}
     out = {"slot_find": slot_find, "appid_find": appid_find, "allows": allows,
-           "slot_find_names": {crate.bodies[x].name for x in slot_find}, "appid_find_names": {crate.bodies[x].name for x in appid_find},
-           "allows_names": {crate.bodies[x].name for x in allows}}
+           "slot_find_names": nm(slot_find), "appid_find_names": nm(appid_find), "allows_names": nm(allows)}
     crate._cache[key] = out
     return out
 
